@@ -689,6 +689,12 @@ class SpecEval(object):
         v = self.ev(n.args[0])
         return CLS(va(val_of(v)))
 
+    def fn_regex_object(self, n):
+        """regex_object('module.NAME'): the compiled pattern held in that module / class attribute (same term as the engine uses)"""
+        key = self.ev(n.args[0])
+        a = z3.Int('g_re_' + ''.join(ch if ch.isalnum() else '_' for ch in key))
+        return SV(VRef(a), Ty.TInst('re:Pattern'))
+
     def fn_class_is(self, n):
         """class_is(x, 'module:Class'): the VALUE x is that class object"""
         v = self.ev(n.args[0])
